@@ -328,9 +328,10 @@ def main_check(args) -> int:
     n_err = sum(1 for r in recs if r["status"] == "harness-error")
     functions = sorted({f for r in recs for f in r.get("functions", [])})
     samples = []
-    for r in recs:
-        if r.get("witness") and len(samples) < 12:
-            samples.append({"obligation": r["name"], "bounds": r.get("meta"), "reachability_model": r["witness"]})
+    wit = [r for r in recs if r.get("witness")]
+    step = max(1, len(wit) // 12)
+    for r in wit[::step][:12]:  # spread over the obligation list
+        samples.append({"obligation": r["name"], "bounds": r.get("meta"), "reachability_model": r["witness"]})
     for r in recs:
         if r["status"] == "refuted":
             samples.insert(0, {"obligation": r["name"], "counterexample": r.get("args"), "message": r.get("message")})
@@ -362,6 +363,7 @@ def main_check(args) -> int:
             "stubs": info.get("stubs", []),
             "outside_claim": info.get("outside", []),
             "known_findings_hit": sorted(printed_known),
+            "extra": {k: v for k, v in info.items() if k not in ("level", "bounds", "stubs", "outside", "assumptions", "nostrip")},
             "per_obligation": [
                 {k: r.get(k) for k in ("name", "status", "wall_s", "paths", "solver_checks", "solver_s", "meta", "exclude", "detail") if r.get(k) not in (None, [], {})}
                 for r in recs
